@@ -154,6 +154,11 @@ func runCheck(p *Prop, tier string, seed int64) int {
 	var mapSites []mapSite
 	observed := 0
 	var observedFails []string
+	type witnessT struct {
+		Harness, Dir string
+		W            *sym.Witness
+	}
+	var witnesses []witnessT
 	var structural []string
 	findingDir := map[string]string{}
 	var samples []sampleT
@@ -181,11 +186,13 @@ func runCheck(p *Prop, tier string, seed int64) int {
 		cfg.SharedExplicit = rs.SharedExplicit
 		cfg.ArbWide = rs.ArbWide
 		cfg.ArbNarrow = rs.ArbNarrow
+		cfg.Witnesses = true
 		if rs.Unwind > 0 {
 			cfg.Unwind = rs.Unwind
 		}
 		if tier == "thorough" {
 			cfg.TimeoutMs = 120000
+			cfg.MaxPaths = 6000000 // safety net only: the thorough corpora are 5-10x the quick ones
 		}
 		e := sym.NewEngine(prog, cfg)
 		for _, pk := range pkgs {
@@ -259,6 +266,12 @@ func runCheck(p *Prop, tier string, seed int64) int {
 			}
 			for k, v := range r.Reached {
 				agg.Reached[k] += v
+			}
+			if r.Witness != nil && !rs.WriteMon {
+				witnesses = append(witnesses, witnessT{Harness: n, Dir: findingDir[n], W: r.Witness})
+			}
+			for _, w := range r.AllWitnesses {
+				witnesses = append(witnesses, witnessT{Harness: n, Dir: findingDir[n], W: w})
 			}
 			for k, v := range r.Unsupp {
 				agg.Unsupp[k] += v
@@ -441,7 +454,35 @@ func runCheck(p *Prop, tier string, seed int64) int {
 			}
 		}
 	}
-	// reachability witnesses: replay a few per run
+	// conformance: the inputs of completed symbolic paths are run through the native build
+	// (a few packages per run); the native run must not fail an assertion the engine decided
+	var witnessNotes []string
+	{
+		dirs := map[string]int{}
+		for _, w := range witnesses {
+			if w.Dir == "" {
+				continue
+			}
+			if _, ok := dirs[w.Dir]; !ok && len(dirs) >= 6 {
+				continue
+			}
+			if dirs[w.Dir] >= 3 && os.Getenv("GOSYM_WITNESS_ALL") == "" {
+				continue
+			}
+			dirs[w.Dir]++
+			ok, serious, why := rp.ReplayWitness(w.Dir, w.Harness, w.W)
+			switch {
+			case ok:
+			case serious:
+				wf := filepath.Join(verifDir, "replays", fmt.Sprintf("%s-witness-%d.json", p.ID, len(inconclusive)+1))
+				wbs, _ := json.MarshalIndent(map[string]interface{}{"property": p.ID, "harness": w.Harness, "kind": "assert", "msg": "conformance witness", "model": w.W.Model}, "", " ")
+				os.WriteFile(wf, wbs, 0o644)
+				inconclusive = append(inconclusive, "conformance: the native build disagrees with the engine on a completed path of "+w.Harness+" (inputs: "+wf+"): "+why)
+			default:
+				witnessNotes = append(witnessNotes, w.Harness+": "+why)
+			}
+		}
+	}
 	wit := rp.Witnesses()
 	rp.Close()
 	for _, u := range unconfirmed {
@@ -503,6 +544,7 @@ func runCheck(p *Prop, tier string, seed int64) int {
 		"replays_attempted":             replayed,
 		"replays_confirmed":             confirmed,
 		"reach_witnesses_replayed":      wit,
+		"witnesses_not_reproduced":      witnessNotes,
 		"known_findings_seen":           knownSeen,
 		"inconclusive":                  inconclusive,
 		"outside_this_run":              c.Info,
